@@ -4,7 +4,14 @@ package fx
 // Rng is splitmix64: every random choice of a harness run derives from one state.
 type Rng struct{ s uint64 }
 
-func NewRng(seed uint64) *Rng { return &Rng{s: seed*0x9E3779B97F4A7C15 + 0x1234567} }
+// NewRng hashes the seed into the initial state: consecutive seeds give unrelated streams (with the plain
+// seed*gamma start, seed s+1 was the stream of seed s shifted by one draw, so neighbouring seeds repeated cases).
+func NewRng(seed uint64) *Rng {
+	z := seed + 0x1234567
+	z = (z ^ (z >> 30)) * 0xBF58476D1CE4E5B9
+	z = (z ^ (z >> 27)) * 0x94D049BB133111EB
+	return &Rng{s: z ^ (z >> 31)}
+}
 
 func (r *Rng) U64() uint64 {
 	r.s += 0x9E3779B97F4A7C15
